@@ -4,7 +4,7 @@
    model Model/IntervalRange.v over the translated add_duration and Model/TzConvert.v.  seq_at iv u n k is "start.add(unit = k*n)" computed from the start. *)
 From Coq Require Import ZArith List Bool.
 From PV Require Import Lib.PyBase Spec.Cal Spec.Zone Spec.NativeDT Proofs.ZoneFacts Model.TzConvert Model.IntervalRange Gen.IntervalRange.
-From PV Require Import Proofs.C19Facts Proofs.C19Mono Proofs.C19Zone Proofs.C19Witness Proofs.C19Mixed.
+From PV Require Import Proofs.C19Facts Proofs.C19Mono Proofs.C19Zone Proofs.C19Witness Proofs.C19Mixed Proofs.C19Calendar.
 Import ListNotations.
 Open Scope Z_scope.
 
@@ -245,3 +245,34 @@ Theorem contains_mixed_zones : forall iv x, dv_kind (iv_start iv) = K_AWARE -> d
     else (dv_inst (iv_start iv) <=? dv_inst x) && (dv_inst x <=? dv_inst (iv_end iv)).
 Proof. exact contains_mixed_l. Qed.
 Print Assumptions contains_mixed_zones.
+
+(* 20. month / year stepping is never cut short inside the calendar.  range() ends the iteration normally when computing the next value raises
+   OverflowError / ValueError (range_prefix, second disjunct), taking that to mean "outside 0001-01-01 .. 9999-12-31".  For dates, naive values and
+   UTC / fixed offsets: start.add(years / months = a) succeeds whenever its target year is in 1 .. 9999 — the clamped day is always a real date, in
+   February of every century year too — so a finished run by years / months stopped at the first value beyond the end, or at the limit of the calendar.
+   (partial: plain values; for a zone with transitions the construction rule after the wall-clock step is not covered here) *)
+Theorem month_year_step_total_partial_plain : forall s u a, wall_in_range (dv_W s) = true -> plain s -> 0 <= u <= 1 ->
+  1 <= ym_target_year (dv_W s) u a <= 9999 -> exists x, shift s u a = Ok x.
+Proof. exact shift_ym_total. Qed.
+Print Assumptions month_year_step_total_partial_plain.
+
+Theorem range_month_year_stops_only_outside_calendar_partial_plain : forall fuel iv u n l,
+  wall_in_range (dv_W (iv_start iv)) = true -> plain (iv_start iv) -> 0 <= u <= 1 ->
+  py_range fuel iv u n = (l, GDone) ->
+  (exists y, seq_at iv u n (length l) = Ok y /\ within iv y = false) \/
+  ((1 <= length l)%nat /\ ~ (1 <= ym_target_year (dv_W (iv_start iv)) u (amount_at iv n (length l)) <= 9999)).
+Proof. exact range_ym_stop_only_outside_calendar_l. Qed.
+Print Assumptions range_month_year_stops_only_outside_calendar_partial_plain.
+
+(* 21. February of a century year: 2099-10-31 .. 2100-06-30 by months yields nine values (#4 = 2100-02-28) ending with the reachable end;
+   2096-02-29 .. 2104-02-29 by 4 years passes 2100-02-28 in both directions; 1999-10-31 .. 2000-03-31 by months passes 2000-02-29 *)
+Theorem range_century_february_witness :
+  map dv_W (fst (py_range 20 (mk_interval (d 766582) (d 766824) false) U_months 1)) =
+    map (fun n => n * us_per_day) [766582; 766612; 766643; 766674; 766702; 766733; 766763; 766794; 766824] /\
+  snd (py_range 20 (mk_interval (d 766582) (d 766824) false) U_months 1) = GDone /\
+  map dv_W (fst (py_range 20 (mk_interval (d 765242) (d 768163) false) U_years 4)) = map (fun n => n * us_per_day) [765242; 766702; 768163] /\
+  map dv_W (fst (py_range 20 (mk_interval (d 768163) (d 765242) false) U_years 4)) = map (fun n => n * us_per_day) [768163; 766702; 765242] /\
+  map dv_W (fst (py_range 20 (mk_interval (d 730057) (d 730209) false) U_months 1)) =
+    map (fun n => n * us_per_day) [730057; 730087; 730118; 730149; 730178; 730209].
+Proof. exact range_century_february_witness_l. Qed.
+Print Assumptions range_century_february_witness.
